@@ -241,3 +241,22 @@ def do_replay(suite, prop, family, build, path):
         return 1
     print("replay: no oracle failure for %s on the current tree" % prop)
     return 0
+
+
+def do_replay_cases(suite, prop, family, build, path):
+    """replay for case-based suites: each op of the payload is one self-contained case"""
+    payload = json.load(open(os.path.join(C.VERIF, path) if not os.path.isabs(path) else path))
+    if "ops" not in payload:
+        print(json.dumps(payload, indent=1)[:6000])
+        return 0
+    per, out = replay_batch(suite, build, family, [payload["ops"]], "replay")
+    res = json.load(open(out + ".res.json"))
+    for c in payload["ops"]:
+        print("case  :", json.dumps(c)[:800])
+    for f in res["failures"]:
+        print("oracle:", json.dumps(f)[:1200])
+    if any(f["property"] == prop and not f.get("known") for f in res["failures"]):
+        print("VIOLATION property=%s replay=%s" % (prop, path))
+        return 1
+    print("replay: no oracle failure for %s on the current tree" % prop)
+    return 0
